@@ -82,7 +82,7 @@ func (p panicCloser) Close() error {
 	panic("consumer Close failure injected by harness")
 }
 
-func stall(n, G, slices, limit int, openAfter bool, panicAt int, closePanics bool) func(x *vrt.Exec) {
+func stall(n, G, slices, limit int, openAfter bool, panicAt int, closePanics bool, openDuring ...bool) func(x *vrt.Exec) {
 	return func(x *vrt.Exec) {
 		media.VerifReset()
 		s := media.VerifNewCacheStream("/c04", false)
@@ -119,6 +119,13 @@ func stall(n, G, slices, limit int, openAfter bool, panicAt int, closePanics boo
 			}
 			pubDone = true
 		})
+		if len(openDuring) > 0 && openDuring[0] {
+			// the stalled consumer comes back at a moment the scheduler chooses, possibly in mid-GOP
+			vrt.GoNamed("resumer", func() {
+				vrt.Yield("resume")
+				g.open = true
+			})
+		}
 		vrt.WhenIdle()
 		if !pubDone {
 			x.Failf("publisher-blocked", "publisher did not finish its writes while a consumer was stalled")
@@ -196,6 +203,8 @@ func scenarios(thorough bool) []runner.Scenario {
 		runner.Scenario{Name: "stall-G3-panicker", Body: stall(8, 3, 1, 3, true, 2, false), P: p, Shards: sh},
 		runner.Scenario{Name: "stall-G3-panicker-close-panics-too", Body: stall(8, 3, 1, 3, true, 1, true), P: p, Shards: sh},
 		runner.Scenario{Name: "stall-G3-2slice-key-pictures", Body: stall(10, 3, 2, 3, true, -1, false), P: p, Shards: sh},
+		runner.Scenario{Name: "stall-G4-resumes-during-publication", Body: stall(13, 4, 1, 3, true, -1, false, true), P: p, Shards: sh},
+		runner.Scenario{Name: "stall-G5-resumes-during-publication-limit2", Body: stall(12, 5, 1, 2, true, -1, false, true), P: p, Shards: sh},
 	)
 	return out
 }
